@@ -19,9 +19,11 @@ int main (int argc, char **argv) {
   static char line[1 << 20];
   char *f[4], *p;
   int i, limit = (argc > 2) ? atoi(argv[2]) : 10;
-  sexp ctx, env, res, str;
+  sexp ctx, env, str;
+  sexp_gc_var1(res);     /* the eval result is reachable from nothing else while it is written */
   sexp_scheme_init();
   ctx = sexp_make_eval_context(NULL, NULL, NULL, 0, 0);
+  sexp_gc_preserve1(ctx, res);   /* never released: the context lives until exit */
   sexp_load_standard_env(ctx, NULL, SEXP_SEVEN);
   sexp_load_standard_ports(ctx, NULL, stdin, stdout, stderr, 1);
   env = sexp_context_env(ctx);
